@@ -242,8 +242,53 @@ func runC25(c *Ctx) {
 			n := strings.Trim(v, "\"")
 			return ok && allow[n] && svcMethods[n]
 		}
+		// impliesAllow: the condition having this truth value implies that the method is
+		// one of the allow-listed names (any nesting of !, &&, ||, ==, !=)
+		var impliesAllow func(e ast.Expr, truth bool) bool
+		impliesAllow = func(e ast.Expr, truth bool) bool {
+			e = ast.Unparen(e)
+			switch x := e.(type) {
+			case *ast.UnaryExpr:
+				if x.Op == token.NOT {
+					return impliesAllow(x.X, !truth)
+				}
+			case *ast.BinaryExpr:
+				switch x.Op {
+				case token.LAND:
+					if truth {
+						return impliesAllow(x.X, true) || impliesAllow(x.Y, true)
+					}
+					return impliesAllow(x.X, false) && impliesAllow(x.Y, false)
+				case token.LOR:
+					if truth {
+						return impliesAllow(x.X, true) && impliesAllow(x.Y, true)
+					}
+					return impliesAllow(x.X, false) || impliesAllow(x.Y, false)
+				case token.EQL, token.NEQ:
+					var other ast.Expr
+					switch {
+					case isMethod(x.X):
+						other = x.Y
+					case isMethod(x.Y):
+						other = x.X
+					default:
+						return false
+					}
+					v, ok := h.ConstVal(other)
+					n := strings.Trim(v, "\"")
+					return ok && allow[n] && svcMethods[n] && (x.Op == token.EQL) == truth
+				}
+			}
+			return false
+		}
 		letThrough := map[string]bool{}
 		reached, _ := h.Reach(nil, nil, func(b *cfgBlock, si int) bool {
+			if len(b.Succs) == 2 && len(b.Nodes) > 0 {
+				if cond, ok := b.Nodes[len(b.Nodes)-1].(ast.Expr); ok && h.caseOf[cond] == nil && impliesAllow(cond, si == 0) {
+					letThrough["(if)"] = true
+					return true
+				}
+			}
 			for _, at := range h.edgeAtoms(b, si) {
 				if !at.truth {
 					continue
@@ -319,7 +364,14 @@ func runC25(c *Ctx) {
 		if len(r.Results) == 3 {
 			p0, p1 := ea.Prov(r.Results[0]), ea.Prov(r.Results[1])
 			tokOK := false
-			ast.Inspect(r.Results[0], func(n ast.Node) bool {
+			var tokExpr ast.Node = r.Results[0]
+			if v := ea.varOf(r.Results[0]); v != nil {
+				// the token literal may be built into a local first
+				if defs := ea.defsOf(v); len(defs) == 1 && defs[0].rhs != nil {
+					tokExpr = defs[0].rhs
+				}
+			}
+			ast.Inspect(tokExpr, func(n ast.Node) bool {
 				if kv, ok := n.(*ast.KeyValueExpr); ok {
 					if id, ok := kv.Key.(*ast.Ident); ok && id.Name == "Token" {
 						tokOK = ea.Prov(kv.Value) == "call:spec/pki.ExtractCertificateIdentity()#0.Token"
